@@ -172,20 +172,36 @@ type listener struct {
 	bs       *bootstrap
 	url      string
 	option   []transport.Option
+	mu       sync.Mutex // guards options, acceptor and closed
 	options  *transport.Options
 	acceptor transport.Acceptor
+	closed   bool
 }
 
 // Acceptor returned the acceptor
 func (l *listener) Acceptor() transport.Acceptor {
+	l.mu.Lock()
+	defer l.mu.Unlock()
 	return l.acceptor
 }
 
 // Close listener
 func (l *listener) Close() error {
-	l.bs.removeListener(l.url)
-	if l.acceptor != nil {
-		return l.acceptor.Close()
+	// remember that the listener was closed: a Sync that has not created its acceptor yet
+	// (Listen().Async() immediately followed by Close or Shutdown) must not start accepting.
+	l.mu.Lock()
+	first := !l.closed
+	l.closed = true
+	acceptor := l.acceptor
+	l.mu.Unlock()
+
+	// only the first Close unregisters: afterwards the url may belong to a new listener
+	if first {
+		l.bs.removeListener(l.url)
+	}
+
+	if acceptor != nil {
+		return acceptor.Close()
 	}
 	return nil
 }
@@ -193,32 +209,57 @@ func (l *listener) Close() error {
 // Sync accept new transport from listener
 func (l *listener) Sync() error {
 
-	if nil != l.acceptor {
+	l.mu.Lock()
+	switch {
+	case nil != l.acceptor:
+		l.mu.Unlock()
 		return fmt.Errorf("duplicate call Listener:Sync")
+	case l.closed:
+		l.mu.Unlock()
+		return ErrServerClosed
 	}
+	l.mu.Unlock()
 
-	var err error
-	if l.options, err = transport.ParseOptions(l.bs.Context(), l.url, l.option...); nil != err {
+	options, err := transport.ParseOptions(l.bs.Context(), l.url, l.option...)
+	if nil != err {
 		return err
 	}
 
-	if l.acceptor, err = l.bs.transportFactory.Listen(l.options); nil != err {
+	acceptor, err := l.bs.transportFactory.Listen(options)
+	if nil != err {
 		return err
 	}
+
+	l.mu.Lock()
+	if l.closed || nil != options.Context.Err() {
+		// closed, or the bootstrap shut down, while the acceptor was being created
+		l.mu.Unlock()
+		_ = acceptor.Close()
+		return ErrServerClosed
+	}
+	l.options, l.acceptor = options, acceptor
+	l.mu.Unlock()
 
 	for {
 		// accept the transport
-		t, err := l.acceptor.Accept()
+		t, err := acceptor.Accept()
 		if nil != err {
+			l.mu.Lock()
+			closed := l.closed
+			l.mu.Unlock()
+
 			select {
-			case <-l.options.Context.Done():
+			case <-options.Context.Done():
 				return ErrServerClosed
 			default:
+				if closed {
+					return ErrServerClosed
+				}
 				return err
 			}
 		}
 
-		l.bs.ServeChannel(l.options.Context, t, l.options.Attachment, true)
+		l.bs.ServeChannel(options.Context, t, options.Attachment, true)
 	}
 }
 
